@@ -50,12 +50,12 @@ def run_report(script, args, report, timeout):
     if os.path.exists(cpath) and not os.environ.get("VERIF_NO_CACHE"):
         c = json.load(open(cpath))
         return c["rc"], c["out"], c["report"], True
-    rpath = os.path.join(core.BUILD, report)
-    if os.path.exists(rpath):
+    rpath = os.path.join(core.BUILD, report) if report else os.devnull
+    if report and os.path.exists(rpath):
         os.remove(rpath)
     r = subprocess.run(["timeout", str(timeout), sys.executable, os.path.join(core.VERIF, "harness", script)] + args,
                        stdout=subprocess.PIPE, stderr=subprocess.STDOUT, text=True, cwd=core.VERIF, errors="replace")
-    rep = json.load(open(rpath)) if os.path.exists(rpath) else None
+    rep = json.load(open(rpath)) if report and os.path.exists(rpath) else None
     json.dump({"rc": r.returncode, "out": r.stdout[-20000:], "report": rep}, open(cpath, "w"))
     return r.returncode, r.stdout, rep, False
 
@@ -178,8 +178,25 @@ def fmt_args(tier, seed):
     return [["--seed", str(seed + s), "--n", "3000"] for s in (1, 2)]
 
 
+def syntax_part(res):
+    """The lexer and parser models (coq/Syntax) against the real ANTLR lexer/parser: token lists and parse trees."""
+    n = "600" if res.tier == "quick" else "4000"
+    args = ["--seed", str(res.seed + 1), "--n", n]
+    rc, out, _, cached = run_report("syntax.py", args, None, 7000)
+    m = re.search(r"^mismatches: (\d+)", out, re.M)
+    if m is None:
+        res.violation({"kind": "harness", "what": "harness/syntax.py did not complete", "output": out[-3000:]}, found=False)
+        return
+    if int(m.group(1)):
+        res.violation({"kind": "correspondence", "what": "the lexer/parser models (coq/Syntax) and the real ANTLR lexer/parser disagree on %s texts" % m.group(1),
+                       "output": out[-3000:], "theorem_or_correspondence": "lex / parse vs hook ops lex+parse",
+                       "rerun": "cd /verif && python3 harness/syntax.py " + " ".join(args)}, found=False)
+    res.coverage["syntax_correspondence"] = {"args": " ".join(args), "cached": cached, "mismatches": int(m.group(1)), "tail": out[-400:]}
+
+
 def fmt_part(res, known, props):
     pid = res.pid
+    syntax_part(res)
     entries = known_for(known, pid, "fmt.py")
     cov = {"runs": []}
     for args in fmt_args(res.tier, res.seed):
